@@ -37,9 +37,9 @@ B = 'BTC-USDT'
 T0 = 1609459200000
 
 
-def fa_cfg(maxlen, export, truthy=False):
-    return ("SPECIFICATION Spec\nCHECK_DEADLOCK FALSE\nCONSTANTS MaxLen = %d Starts = {3} Export = %s QTruthy = %s\n"
-            "INVARIANT FillIsGaplessAndFaithful\n" % (maxlen, "TRUE" if export else "FALSE", "TRUE" if truthy else "FALSE"))
+def fa_cfg(maxlen, export, variant="code"):
+    return ("SPECIFICATION Spec\nCHECK_DEADLOCK FALSE\nCONSTANTS MaxLen = %d Starts = {3} Export = %s Variant = \"%s\"\n"
+            "INVARIANT FillIsGaplessAndFaithful\n" % (maxlen, "TRUE" if export else "FALSE", variant))
 
 
 def ac_cfg(lb, prefill, depth, maxlen, multi, batch=0, q=False, export=False):
@@ -137,6 +137,22 @@ class Store:
         except Exception as ex:
             e['exc'] = type(ex).__name__
         e['post'] = self.series(tf)
+        return e
+
+    def series6(self, tf):
+        a = self.store.candles.get_candles(self.ex, B, tf)
+        half = self.PERIOD[tf] // 2
+        return [[int((r[0] - T0) // half)] + [int(x) for x in r[1:6]] for r in a]
+
+    def addrow(self, tf, ts, fields):
+        """add_candle of a whole candle (o, c, h, l, v given separately: re-sent candles that differ in a subset of fields)"""
+        e = dict(k='add', ts=ts, v=0, row=[ts] + [int(x) for x in fields], exc='none')
+        try:
+            self.store.candles.add_candle(np.array([T0 + ts * (self.PERIOD[tf] // 2)] + [float(x) for x in fields]), self.ex, B, tf,
+                                          with_execution=False, with_generation=False)
+        except Exception as ex:
+            e['exc'] = type(ex).__name__
+        e['post'] = self.series6(tf)
         return e
 
     def batch(self, tf, tss, v):
@@ -239,9 +255,12 @@ def run(ctx):
     tid = 0
     # ------------------------------------------------------------ M + pattern export: gap filling
     maxlen = ctx.pick(7, 8)
-    r, rdev = tlc.run_parallel([
+    r, rdev, rcur = tlc.run_parallel([
         dict(module="FillAbsentMC", cfg_text=fa_cfg(maxlen, True), workers=1, coverage=True, timeout=900),
-        dict(module="FillAbsentMC", cfg_text=fa_cfg(maxlen, False, truthy=True), workers=1, timeout=900)])
+        dict(module="FillAbsentMC", cfg_text=fa_cfg(maxlen, False, "truthy"), workers=1, timeout=900),
+        dict(module="FillAbsentMC", cfg_text=fa_cfg(maxlen, False, "cursor"), workers=1, timeout=900)])
+    if not rcur.violation:
+        raise Machinery("the cursor deviation (ascending batch assumed) does not show in FillAbsentMC")
     ctx.add_tlc(r, "FillAbsentMC MaxLen=%d (presence patterns x close=0 subsets x first open 0 x flat market)" % maxlen)
     if r.violation:
         raise Machinery("FillAbsentMC violates %s\n%s" % (r.violation["name"], r.violation["trace"][:2000]))
@@ -305,6 +324,18 @@ def run(ctx):
             price = cl if cl else rng.randint(1, 6)
         if rng.random() < 0.2:
             given.append((start + n + rng.randint(0, 3), price, price, price, price, 1, len(given) + 1))
+        # batch shapes: unsorted (newest first / shuffled pages), a minute delivered twice, candles before the start
+        bshape = (c // 5) % 5
+        if bshape == 1:
+            given.reverse()
+        elif bshape == 2 and len(given) > 1:
+            k = rng.randrange(1, len(given))
+            given = given[k:] + given[:k]
+        elif bshape == 3:
+            g = rng.choice(given)
+            given.insert(rng.randint(0, len(given)), (g[0], g[1] + 1, g[2] + 1, g[3] + 1, g[4] + 1, g[5] + 1, len(given) + 1))
+        elif bshape == 4 and start > 3:
+            given.insert(rng.randint(0, len(given)), (start - rng.randint(1, 3), price + 2, price + 2, price + 2, price + 2, 1, len(given) + 1))
         ev.append(real_fill(given, start, start + n - 1, unit=(2.0 ** -40 if vstyle == 4 else 1.0),
                             negzero=(c % 7 == 3), ints=(c % 7 == 5 and vstyle != 4)))
         if len(pres) < n:
@@ -420,6 +451,31 @@ def run(ctx):
         if s == 0:
             samples.append({"kind": "T: random add sequence on %d stored rows (first 6 events)" % nrows, "tf": tf,
                             "init_tail": init[-3:], "events": [{k: (x[-3:] if k == "post" else x) for k, x in e.items()} for e in evs[:6]]})
+    # ------------------------------------------------------------ T: re-sent candles that differ in a SUBSET of the fields
+    import itertools
+    n_fld = 0
+    subsets = [()] + [c for r in (1, 2) for c in itertools.combinations(range(5), r)] + [(0, 1, 2, 3, 4)]
+    for tf in ("1m", "5m"):
+        for where in ("last", "older"):
+            st.fresh()
+            nrows = 24
+            for j in range(1, nrows + 1):
+                st.addrow(tf, 2 * j, [100, 101, 110, 90, 50])
+            init = st.series6(tf)
+            evs = []
+            for sub in subsets:
+                k = nrows if where == "last" else rng.choice([1, 2, 3, nrows - 1, nrows - 5])
+                cur = st.series6(tf)[k - 1][1:]
+                new = [x + (3 if i in sub else 0) for i, x in enumerate(cur)]      # o, c, h, l, v: only `sub` changes
+                evs.append(st.addrow(tf, 2 * k, new))
+                evs[-1]["changed"] = ["ochlv"[i] for i in sub]
+                n_fld += 1
+                if sub:
+                    ctx.nontrivial.add(("T-fields", tf, where, sub))
+            tid += 1
+            traces.append({"id": tid, "hdr": {"src": "T-fields", "tf": tf, "init": init, "lb": 20}, "ev": evs})
+    samples.append({"kind": "T: re-sent 5m candle differing only in high", "event": {k: (v[-2:] if k == "post" else v) for k, v in
+                    next(e for e in traces[-2]["ev"] if e.get("changed") == ["h"]).items()}})
     # ------------------------------------------------------------ T: warm-up injection of a real research.backtest
     n_wu = 0
     for c in range(ctx.pick(10, 60)):
@@ -481,7 +537,7 @@ def run(ctx):
         "traces_validated_against_impl": len(traces), "fill_patterns_from_tlc": n_pat,
         "fill_patterns_with_a_zero_price": nz, "fill_patterns_random": n_long,
         "add_model_transitions": n_edges, "add_transitions_replayed": n_r, "add_random_sequences": n_seq,
-        "warmup_batches_through_research_backtest": n_wu, "spacing_cases": len(ev), "spacing_cases_accepted": accepted,
+        "warmup_batches_through_research_backtest": n_wu, "field_subset_replacements": n_fld, "spacing_cases": len(ev), "spacing_cases_accepted": accepted,
         "trace_events_checked_by_tlc": sum(r.generated for r in results),
         "rejected_clauses": {k: len(v) for k, v in seen.items()}, "samples": samples,
         "rule": "fill: every presence pattern of every interval <= MaxLen exported by TLC (non-trivial: at least one and "
@@ -505,13 +561,17 @@ def replay(ctx, rp):
         e = p["ev"][-1]
         evs.append(warmup_event([c[0] // 2 for c in e["chunk"][:-1]]))
         init = []
-    elif src.endswith("add"):
+    elif src.endswith("add") or src == "T-fields":
         st = Store(bucket=8)
         tf = p["hdr"]["tf"]
+        six = p["hdr"]["src"] == "T-fields"
         for c in p["hdr"]["init"]:
-            st.add(tf, c[0], c[1])
-        init = st.series(tf)
+            st.addrow(tf, c[0], c[1:]) if six else st.add(tf, c[0], c[1])
+        init = st.series6(tf) if six else st.series(tf)
         for e in p["ev"]:
+            if "row" in e:
+                evs.append(st.addrow(tf, e["ts"], e["row"][1:]))
+                continue
             evs.append(st.add(tf, e["ts"], e["v"]) if e["k"] == "add" else
                        (st.multi(e["chunk"][0][0], len(e["chunk"]), e["chunk"][0][1]) if e["k"] == "multi" else
                         st.batch(tf, [c[0] for c in e["chunk"]], e["chunk"][0][1])))
